@@ -61,7 +61,7 @@ def spec_horizontal(x, nans, n):
 def run_kernel(fn, x, t, nans, n, prefix="k", hyps=None):
     mod = kern.module(TS)
     A = Arr.full((n, n), 0, "int8")
-    run = Run(mod, loop_bound=n + 1, prefix=prefix, hyps=hyps)
+    run = Run(mod, loop_bound=n + 1, prefix=prefix, hyps=hyps, split={"k"})
     xa = Arr((n,), list(x), "float32")
     if fn == "_visibility_relations_horizontal":
         run.call(fn, [xa, n, A])
@@ -193,7 +193,7 @@ def ob_fp_consistency(name, fn, ts, bits):
     x = [z3.fpSignedToFP(sx.RNE, b, F) for b in xb]
     t = [z3.FPVal(float(v), F) for v in ts]
     A = Arr.full((n, n), 0, "int8")
-    run = Run(mod, loop_bound=n + 1, domain="F", feas_timeout_ms=500)
+    run = Run(mod, loop_bound=n + 1, domain="F", feas_timeout_ms=500, split={"k"})
     if fn == "_visibility_relations_horizontal":
         run.call(fn, [Arr((n,), x, "float32"), n, A])
     elif fn == "_visibility_relations_missingvalues":
